@@ -262,7 +262,8 @@ func (check typecheck) binaryExpr(n *node) error {
 			return n.cfgErrorf("invalid operation: division by zero")
 		}
 	case aQuo, aQuoAssign:
-		if zeroConst(c1) {
+		if zeroConst(c1) && (c0.rval.IsValid() || c0.typ != nil && isInt(c0.typ.TypeOf())) {
+			// A floating-point or complex variable can be divided by a zero constant.
 			return n.cfgErrorf("invalid operation: division by zero")
 		}
 		if c0.rval.IsValid() && c1.rval.IsValid() {
